@@ -125,7 +125,7 @@ Definition no_removal_acks (h : list cap_in) : Prop :=
    tmp_prune_aware = false.  With notes/proposed-fixes/cap-tmpcap-prune.diff applied to /repo
    the flag becomes true (and Model/Cap.v handle_cap prunes tmpCap in its DEL and NAK
    branches); the theorems are proven for both values. *)
-Definition tmp_prune_aware : bool := false.
+Definition tmp_prune_aware : bool := true.
 
 Definition names_of (ps : list str) : list str := List.map cap_token_name (cap_tokens ps).
 
